@@ -552,11 +552,506 @@ fn uv_wrappers(r: &mut Report) {
     check_uv(r, "UV-mapped box 2x3x4 (atlas: face k on its own chart at (8k, 0))", &m, &uvv, &uvf, &qs);
 }
 
+
+// ------------------------------------------------------------------------------------------------ wave 5: parameter-space audit
+// The families below vary what the fixed examples above keep constant: the number of elements (33 .. 70001 vertices,
+// 32 .. 4232 faces: every size class of the bounding-volume tree), the frame (coordinates 2^10 .. 2^26 from the origin,
+// extents 2^-20 / 2^-30 / 2^10), the numbering (reversed), closure (open / explicitly closed / force_closed / closed
+// within the tolerance only), edge-length ratios (5 * 2^-18 next to 25), caps just above / below the true distance,
+// max_angle 0 / pi/2 / pi / > pi, Some(identity) and Some(far translation), index lists with 0 / 1 / 2 points and
+// duplicates.  All coordinates are dyadic and chosen so that scaling / shifting is exact; the oracle is the same
+// brute-force scan, its tolerance follows the frame (Tc).
+
+/// tolerance context: `s` = size scale of the entity (1 for the unit families), `m` = largest |coordinate| involved
+#[derive(Clone, Copy)]
+struct Tc { s: f64, m: f64 }
+impl Tc {
+    /// admissible error of a length of size d: 1e-9 relative to the scale of the entity (or to d) + 16 ulp of the coordinates
+    fn t(&self, d: f64) -> f64 { 1e-9 * (self.s + d.abs()) + 16.0 * f64::EPSILON * self.m }
+}
+/// a frame: x -> x * s + o (s a power of two, o dyadic: exact for the coordinates used)
+#[derive(Clone, Copy)]
+struct Frame { s: f64, o: [f64; 3], tag: &'static str }
+const P10: f64 = 1024.0;
+const P20: f64 = 1048576.0;
+const P26: f64 = 67108864.0;
+fn frames_all() -> Vec<Frame> {
+    vec![
+        Frame { s: 1.0, o: [0.0, 0.0, 0.0], tag: "as is" },
+        Frame { s: 1.0, o: [P10, -P10, 3.0 * P10], tag: "shifted by (2^10, -2^10, 3*2^10)" },
+        Frame { s: 1.0, o: [P20, P20, -2.0 * P20], tag: "shifted by (2^20, 2^20, -2^21)" },
+        Frame { s: 1.0, o: [P26, -0.5 * P26, 0.25 * P26], tag: "shifted by (2^26, -2^25, 2^24)" },
+        Frame { s: 1.0 / P20, o: [0.0, 0.0, 0.0], tag: "scaled by 2^-20" },
+        Frame { s: 1.0 / P20 / P10, o: [0.0, 0.0, 0.0], tag: "scaled by 2^-30" },
+        Frame { s: 1.0 / P20, o: [1.0, -1.0, 0.5], tag: "scaled by 2^-20 then shifted by (1, -1, 0.5)" },
+        Frame { s: P10, o: [0.0, 0.0, 0.0], tag: "scaled by 2^10" },
+    ]
+}
+fn frames_few() -> Vec<Frame> { let f = frames_all(); vec![f[0], f[2], f[4]] }
+
+struct StaG<const D: usize> { p: na::Point<f64, D>, i: usize, f: f64, dir: na::SVector<f64, D>, nrm: Option<na::SVector<f64, D>>, la: f64, dd: f64 }
+
+/// the curve clauses of check_curve2 / check_curve3 with a frame-aware tolerance; `at` evaluates the real code
+fn check_curve_g<const D: usize>(r: &mut Report, dim: &str, name: &str, v: &[na::Point<f64, D>], tc0: Tc, queries: &[na::Point<f64, D>], at: &dyn Fn(&na::Point<f64, D>) -> StaG<D>) {
+    let n = v.len();
+    let mut ls = vec![0.0];
+    for i in 0..n - 1 { let l = ls[i] + (v[i + 1] - v[i]).norm(); ls.push(l); }
+    let cl = |x: &str| format!("{}: {}", dim, x);
+    for q in queries {
+        r.case();
+        let tc = Tc { s: tc0.s, m: tc0.m.max(q.coords.amax()) };
+        let s = at(q);
+        let p = s.p;
+        let d = || format!("{} ({} vertices) query {:?} -> point {:?} index {} fraction {:?} length_along {:?} dist_to_point {:?}", name, n, q.coords.as_slice(), p.coords.as_slice(), s.i, s.f, s.la, s.dd);
+        let mut dmin = f64::INFINITY;
+        let mut on = f64::INFINITY;
+        for i in 0..n - 1 {
+            dmin = dmin.min((q - seg_closest(&v[i], &v[i + 1], q)).norm());
+            on = on.min((p - seg_closest(&v[i], &v[i + 1], &p)).norm());
+        }
+        let dp = (q - p).norm();
+        r.check(on <= tc.t(0.0), &cl("the reported closest point lies on the curve"), d);
+        r.check(dp <= dmin + tc.t(dmin), &cl("no vertex or edge is nearer to the query than the reported point (brute force over all segments)"), d);
+        r.check((s.dd - dp).abs() <= tc.t(dp), &cl("dist_to_point equals the distance from the query to the reported closest point"), d);
+        r.check((s.dd - dmin).abs() <= tc.t(dmin), &cl("dist_to_point equals the brute-force minimum distance"), d);
+        r.check(s.i + 1 < n && s.f >= 0.0 && s.f <= 1.0, &cl("edge index in range and fraction in [0,1]"), d);
+        if s.i + 1 < n {
+            let i = s.i;
+            let lp = v[i] + (v[i + 1] - v[i]) * s.f;
+            r.check((lp - p).norm() <= tc.t(0.0), &cl("edge index and fraction reproduce the reported point"), d);
+            let e = (v[i + 1] - v[i]).normalize();
+            r.check((s.dir - e).amax() <= 1e-9, &cl("the reported direction is that edge's direction"), d);
+            if let Some(nn) = s.nrm {
+                r.check((nn[0] - e[1]).abs() <= 1e-9 && (nn[1] + e[0]).abs() <= 1e-9, &cl("the reported normal is that edge's normal (direction turned by -90 degrees)"), d);
+            }
+            let want = ls[i] + (p - v[i]).norm();
+            r.check((s.la - want).abs() <= tc.t(want), &cl("length_along is the arc length of the reported point"), d);
+        }
+    }
+}
+
+// ---- 2D vertex families in the unit frame (dyadic coordinates)
+fn fam_zigzag(n: usize) -> Vec<(f64, f64)> { (0..n).map(|k| (k as f64 * 0.5, if k % 2 == 0 { 0.0 } else { 1.0 + (k % 5) as f64 * 0.25 })).collect() }
+/// square spiral outwards: legs of 1, 1, 2, 2, 3, 3, ... half units (arms 0.5 apart, all nested)
+fn fam_spiral(n: usize) -> Vec<(f64, f64)> {
+    let mut out = vec![(0.0, 0.0)];
+    let dirs = [(0.5, 0.0), (0.0, 0.5), (-0.5, 0.0), (0.0, -0.5)];
+    let (mut x, mut y, mut leg) = (0.0, 0.0, 0usize);
+    while out.len() < n {
+        let len = (leg / 2 + 1) as f64;
+        x += dirs[leg % 4].0 * len; y += dirs[leg % 4].1 * len;
+        out.push((x, y));
+        leg += 1;
+    }
+    out
+}
+/// hairpin runs of length 4, h apart (nearly coincident for h = 2^-10)
+fn fam_serpentine(rows: usize, h: f64) -> Vec<(f64, f64)> {
+    let mut out = vec![];
+    for k in 0..rows { let y = k as f64 * h; if k % 2 == 0 { out.push((0.0, y)); out.push((4.0, y)); } else { out.push((4.0, y)); out.push((0.0, y)); } }
+    out
+}
+/// rectangle 8 x 3 walked from the middle of the bottom side: short edges (0.5) below, long ones (8/3 is avoided: 2) above, single
+/// edges on the sides; `gap`: the last vertex stops this far short of the first one (0 = explicitly closed)
+fn fam_ring(gap: f64) -> Vec<(f64, f64)> {
+    let mut out = vec![];
+    for k in 0..=8 { out.push((4.0 + 0.5 * k as f64, 0.0)); }
+    out.push((8.0, 3.0));
+    for k in 1..=4 { out.push((8.0 - 2.0 * k as f64, 3.0)); }
+    out.push((0.0, 0.0));
+    for k in 1..8 { out.push((0.5 * k as f64, 0.0)); }
+    out.push((4.0 - gap, 0.0));
+    out
+}
+/// long edges with irrational lengths (so that cumulative lengths carry rounding), with edges of length 5 * 2^-18 at the
+/// front, in the middle and at the back (ratio > 1e6 : 1)
+fn fam_long_tiny() -> Vec<(f64, f64)> {
+    let t = 1.0 / 262144.0;
+    let mut out = vec![(0.0, 0.0), (3.0 * t, 4.0 * t)];
+    let (mut x, mut y) = (3.0 * t, 4.0 * t);
+    for k in 0..40usize {
+        x += 24.0; y += ((k * k) % 7) as f64 - 3.0;
+        out.push((x, y));
+        if k == 19 { x += 3.0 * t; y -= 4.0 * t; out.push((x, y)); x += 4.0 * t; y += 3.0 * t; out.push((x, y)); }
+    }
+    x -= 4.0 * t; y += 3.0 * t; out.push((x, y));
+    out
+}
+fn pow2_ge(x: f64) -> f64 { let mut p = 1.0 / 1024.0; while p < x { p *= 2.0; } p }
+/// queries for a polyline, unit frame: two grids reaching 1 beyond the box (one off the lattice), for up to `nv` spread-out
+/// vertices: the vertex itself, the midpoint of its edge, both displaced by +-fine obliquely; far points (2^20 .. 2^27)
+fn fam_queries(v: &[(f64, f64)], fine: f64, nv: usize, grid: bool) -> Vec<(f64, f64)> {
+    let (mut x0, mut x1, mut y0, mut y1) = (f64::INFINITY, -f64::INFINITY, f64::INFINITY, -f64::INFINITY);
+    for p in v { x0 = x0.min(p.0); x1 = x1.max(p.0); y0 = y0.min(p.1); y1 = y1.max(p.1); }
+    let mut out = vec![];
+    if grid {
+        let step = pow2_ge(((x1 - x0).max(y1 - y0) + 2.0) / 16.0).max(0.5);
+        let (gx0, gy0) = ((x0 / step).floor() * step - step.min(1.0), (y0 / step).floor() * step - step.min(1.0));
+        let mut gx = gx0;
+        while gx <= x1 + 1.0 { let mut gy = gy0; while gy <= y1 + 1.0 { out.push((gx, gy)); out.push((gx + 0.25, gy + 0.125)); gy += step; } gx += step; }
+    }
+    let n = v.len();
+    let mut picks: Vec<usize> = vec![0, 1, n / 2, n - 2, n - 1];
+    for k in 0..nv { picks.push(k * (n - 1) / nv.max(1)); }
+    picks.sort(); picks.dedup();
+    for &k in picks.iter() {
+        let a = v[k];
+        out.push(a);
+        for sg in [1.0, -1.0] { out.push((a.0 + sg * fine, a.1 + sg * fine * 0.5)); out.push((a.0 - sg * fine * 0.5, a.1 + sg * fine)); }
+        if k + 1 < n {
+            let b = v[k + 1];
+            let mid = ((a.0 + b.0) * 0.5, (a.1 + b.1) * 0.5);
+            out.push(mid);
+            for sg in [1.0, -1.0] { out.push((mid.0 + sg * fine * 0.25, mid.1 + sg * fine * 0.5)); }
+            out.push((a.0 * 0.75 + b.0 * 0.25, a.1 * 0.75 + b.1 * 0.25));
+        }
+    }
+    out.extend([(-P20, 2.0 * P20), (3.0 * P20 * 8.0, P20 * 8.0), (1.0, -2.0 * P26), (x1 + P20, y0 - 0.5 * P20)]);
+    out
+}
+
+fn curves_w5(r: &mut Report) {
+    // (name, unit-frame vertices, fine displacement, number of picked vertices, grid?, all frames?, tolerance factor)
+    let h = 1.0 / 1024.0;
+    struct Fam { name: String, v: Vec<(f64, f64)>, fine: f64, nv: usize, grid: bool, all: bool, ctol: f64 }
+    let mut fams: Vec<Fam> = vec![];
+    for n in [33usize, 65, 100, 1000, 4097] { fams.push(Fam { name: format!("zigzag (k/2, k even ? 0 : 1 + (k%5)/4), k < {}", n), v: fam_zigzag(n), fine: 0.125, nv: 24, grid: true, all: n <= 100, ctol: 1.0 / P20 }); }
+    for n in [40usize, 200, 1025] { fams.push(Fam { name: format!("square spiral outwards, {} vertices, arms 0.5 apart", n), v: fam_spiral(n), fine: 0.125, nv: 24, grid: true, all: n <= 200, ctol: 1.0 / P20 }); }
+    for rows in [6usize, 40] { fams.push(Fam { name: format!("serpentine, {} hairpin runs of length 4, 2^-10 apart", rows), v: fam_serpentine(rows, h), fine: h / 4.0, nv: 24, grid: true, all: true, ctol: 1.0 / P20 }); }
+    fams.push(Fam { name: "rectangle 8x3 from the middle of the bottom side, explicitly closed (short edges below, long above)".into(), v: fam_ring(0.0), fine: 0.125, nv: 30, grid: true, all: true, ctol: 1.0 / P20 });
+    fams.push(Fam { name: "rectangle 8x3 from the middle of the bottom side, last vertex 0.25 short of the first".into(), v: fam_ring(0.25), fine: 0.125, nv: 30, grid: true, all: true, ctol: 1.0 / P20 });
+    fams.push(Fam { name: "rectangle 8x3 from the middle of the bottom side, last vertex 1/16 short of the first, curve tolerance 1/8 (closed within the tolerance only)".into(), v: fam_ring(0.0625), fine: 0.125, nv: 30, grid: true, all: true, ctol: 0.125 });
+    fams.push(Fam { name: "long edges (24 x, irrational lengths) with edges of length 5*2^-18 at the front, in the middle, at the back".into(), v: fam_long_tiny(), fine: 1.0 / P20, nv: 44, grid: true, all: false, ctol: 1.0 / P20 / 4.0 });
+    let big = if super::thorough() { 200001 } else { 70001 };
+    fams.push(Fam { name: format!("zigzag (k/2, k even ? 0 : 1 + (k%5)/4), k < {} (edge ids >= 2^16)", big), v: fam_zigzag(big), fine: 0.125, nv: 6, grid: false, all: false, ctol: 1.0 / P20 });
+
+    for fam in fams.iter() {
+        let qs = fam_queries(&fam.v, fam.fine, fam.nv, fam.grid);
+        let frames = if fam.all { frames_all() } else if fam.v.len() > 5000 { vec![frames_all()[0]] } else { frames_few() };
+        for (fi, fr) in frames.iter().enumerate() {
+            for rev in [false, true] {
+                if rev && (fi > 0 && !fam.all) { continue; }
+                let mut uv = fam.v.clone();
+                if rev { uv.reverse(); }
+                let name = format!("{}{}, {}", fam.name, if rev { ", numbering reversed" } else { "" }, fr.tag);
+                let m = uv.iter().fold(0.0f64, |a, p| a.max((p.0 * fr.s + fr.o[0]).abs()).max((p.1 * fr.s + fr.o[1]).abs()));
+                let tc = Tc { s: fr.s, m };
+                // 2D
+                let pts: Vec<Point2> = uv.iter().map(|p| Point2::new(p.0 * fr.s + fr.o[0], p.1 * fr.s + fr.o[1])).collect();
+                let q2: Vec<Point2> = qs.iter().map(|p| Point2::new(p.0 * fr.s + fr.o[0], p.1 * fr.s + fr.o[1])).collect();
+                for fc in [false, true] {
+                    if fc && fam.v.len() > 5000 { continue; }
+                    if let Ok(c) = Curve2::from_points(&pts, fam.ctol * fr.s, fc) {
+                        let nm = format!("Curve2 {} (tol {:?}, force_closed {}, is_closed {})", name, fam.ctol * fr.s, fc, c.is_closed());
+                        check_curve_g::<2>(r, "curve2", &nm, c.points(), tc, &q2, &|q| {
+                            let s = c.at_closest_to_point(q);
+                            StaG { p: s.point(), i: s.index(), f: s.fraction(), dir: s.direction().into_inner(), nrm: Some(s.normal().into_inner()), la: s.length_along(), dd: c.dist_to_point(q) }
+                        });
+                    }
+                }
+                // 3D: the same polyline lifted out of the plane (z = ((7k) % 4) * fine)
+                let nv = uv.len();
+                let zk = |k: usize| ((k * 7) % 4) as f64 * fam.fine;
+                let pts3: Vec<Point3> = (0..nv).map(|k| Point3::new(uv[k].0 * fr.s + fr.o[0], uv[k].1 * fr.s + fr.o[1], zk(k) * fr.s + fr.o[2])).collect();
+                let q3: Vec<Point3> = qs.iter().enumerate().map(|(k, p)| Point3::new(p.0 * fr.s + fr.o[0], p.1 * fr.s + fr.o[1], ((k % 5) as f64 - 1.0) * fam.fine * fr.s + fr.o[2])).collect();
+                if let Ok(c) = Curve3::from_points(&pts3, fam.ctol * fr.s) {
+                    let nm = format!("Curve3 {} lifted by z = ((7k)%4)*{:?} (tol {:?})", name, fam.fine, fam.ctol * fr.s);
+                    let tc3 = Tc { s: fr.s, m: m.max(fr.o[2].abs() + 4.0 * fam.fine * fr.s) };
+                    check_curve_g::<3>(r, "curve3", &nm, c.points(), tc3, &q3, &|q| {
+                        let s = c.at_closest_to_point(q);
+                        StaG { p: s.point(), i: s.index(), f: s.fraction(), dir: s.direction().into_inner(), nrm: None, la: s.length_along(), dd: c.dist_to_point(q) }
+                    });
+                }
+            }
+        }
+    }
+}
+
+
+// ---- wave 5, meshes
+type V3 = (f64, f64, f64);
+/// (nx x ny cells of size dx x dy, z = ((3i + 5j) % 4) * dz: non-planar), two triangles per cell with alternating diagonals;
+/// `flip`: every third face is listed with the opposite winding; `renum`: vertex ids reversed (interior / first row last)
+fn gen_heightfield(nx: usize, ny: usize, dx: f64, dy: f64, dz: f64, flip: bool, renum: bool) -> (Vec<V3>, Vec<[u32; 3]>) {
+    let nvert = (nx + 1) * (ny + 1);
+    let mut v = vec![(0.0, 0.0, 0.0); nvert];
+    let id = |i: usize, j: usize| { let k = j * (nx + 1) + i; (if renum { nvert - 1 - k } else { k }) as u32 };
+    for j in 0..=ny { for i in 0..=nx { v[id(i, j) as usize] = (i as f64 * dx, j as f64 * dy, ((3 * i + 5 * j) % 4) as f64 * dz); } }
+    let mut f = vec![];
+    for j in 0..ny { for i in 0..nx {
+        let (a, b, c, d) = (id(i, j), id(i + 1, j), id(i + 1, j + 1), id(i, j + 1));
+        if (i + j) % 2 == 0 { f.push([a, b, c]); f.push([a, c, d]); } else { f.push([a, b, d]); f.push([b, c, d]); }
+    } }
+    if flip { for (k, t) in f.iter_mut().enumerate() { if k % 3 == 1 { t.swap(1, 2); } } }
+    (v, f)
+}
+/// box w x h x d, every side a k x k grid of its own (vertices along the box edges are duplicated), outward winding
+fn gen_tess_box(w: f64, h: f64, d: f64, k: usize) -> (Vec<V3>, Vec<[u32; 3]>) {
+    let sides: [(V3, V3, V3); 6] = [
+        ((0.0, 0.0, 0.0), (0.0, h, 0.0), (w, 0.0, 0.0)), ((0.0, 0.0, d), (w, 0.0, 0.0), (0.0, h, 0.0)),
+        ((0.0, 0.0, 0.0), (w, 0.0, 0.0), (0.0, 0.0, d)), ((0.0, h, 0.0), (0.0, 0.0, d), (w, 0.0, 0.0)),
+        ((0.0, 0.0, 0.0), (0.0, 0.0, d), (0.0, h, 0.0)), ((w, 0.0, 0.0), (0.0, h, 0.0), (0.0, 0.0, d)),
+    ];
+    let (mut v, mut f) = (vec![], vec![]);
+    for (o, a, b) in sides.iter() {
+        let base = v.len() as u32;
+        for j in 0..=k { for i in 0..=k {
+            let (s, t) = (i as f64 / k as f64, j as f64 / k as f64);
+            v.push((o.0 + a.0 * s + b.0 * t, o.1 + a.1 * s + b.1 * t, o.2 + a.2 * s + b.2 * t));
+        } }
+        let id = |i: usize, j: usize| base + (j * (k + 1) + i) as u32;
+        for j in 0..k { for i in 0..k {
+            let (p, q, rr, s) = (id(i, j), id(i + 1, j), id(i + 1, j + 1), id(i, j + 1));
+            if (i + j) % 2 == 0 { f.push([p, q, rr]); f.push([p, rr, s]); } else { f.push([p, q, s]); f.push([q, rr, s]); }
+        } }
+    }
+    (v, f)
+}
+fn gen_octahedron(a: f64) -> (Vec<V3>, Vec<[u32; 3]>) {
+    let v = vec![(a, 0.0, 0.0), (-a, 0.0, 0.0), (0.0, a, 0.0), (0.0, -a, 0.0), (0.0, 0.0, a), (0.0, 0.0, -a)];
+    let f = vec![[0, 2, 4], [2, 1, 4], [1, 3, 4], [3, 0, 4], [2, 0, 5], [1, 2, 5], [3, 1, 5], [0, 3, 5]];
+    (v, f)
+}
+/// queries for a mesh, unit frame: two grids reaching 1 beyond the box (one off the lattice); for up to `nv` spread-out faces:
+/// every corner, the midpoint of every edge and an interior point, each as is and displaced by +-fine along z and obliquely;
+/// far points (2^20 .. 2^27)
+fn mesh_queries_w(v: &[V3], f: &[[u32; 3]], fine: f64, nv: usize, gridn: f64) -> Vec<V3> {
+    let (mut lo, mut hi) = ([f64::INFINITY; 3], [-f64::INFINITY; 3]);
+    for p in v { for (k, x) in [p.0, p.1, p.2].iter().enumerate() { lo[k] = lo[k].min(*x); hi[k] = hi[k].max(*x); } }
+    let ext = (hi[0] - lo[0]).max(hi[1] - lo[1]).max(hi[2] - lo[2]);
+    let step = pow2_ge((ext + 2.0) / gridn).max(0.5);
+    let mut out = vec![];
+    let g0: Vec<f64> = (0..3).map(|k| (lo[k] / step).floor() * step - step.min(1.0)).collect();
+    let mut x = g0[0];
+    while x <= hi[0] + 1.0 { let mut y = g0[1]; while y <= hi[1] + 1.0 { let mut z = g0[2]; while z <= hi[2] + 1.0 {
+        out.push((x, y, z)); out.push((x + 0.25, y + 0.125, z + 0.375));
+        z += step; } y += step; } x += step; }
+    let nf = f.len();
+    let mut picks: Vec<usize> = vec![0, nf / 2, nf - 1];
+    for k in 0..nv { picks.push(k * (nf - 1) / nv.max(1)); }
+    picks.sort(); picks.dedup();
+    for &k in picks.iter() {
+        let t = [v[f[k][0] as usize], v[f[k][1] as usize], v[f[k][2] as usize]];
+        let mut base = vec![t[0], t[1], t[2]];
+        for e in 0..3 { let (a, b) = (t[e], t[(e + 1) % 3]); base.push(((a.0 + b.0) * 0.5, (a.1 + b.1) * 0.5, (a.2 + b.2) * 0.5)); }
+        base.push((t[0].0 * 0.5 + t[1].0 * 0.25 + t[2].0 * 0.25, t[0].1 * 0.5 + t[1].1 * 0.25 + t[2].1 * 0.25, t[0].2 * 0.5 + t[1].2 * 0.25 + t[2].2 * 0.25));
+        for b in base.iter() {
+            out.push(*b);
+            for sg in [1.0, -1.0] { out.push((b.0, b.1, b.2 + sg * fine)); out.push((b.0 + sg * fine * 0.5, b.1 - sg * fine * 0.25, b.2 + sg * fine)); out.push((b.0 + sg * fine, b.1 + sg * fine * 0.5, b.2)); }
+        }
+    }
+    out.extend([(-P20, 2.0 * P20, 0.0), (24.0 * P20, 8.0 * P20, -16.0 * P20), (1.0, 1.5, 2.0 * P26), (hi[0] + P20, lo[1] - 0.5 * P20, 0.25 * P20)]);
+    out
+}
+
+struct MeshOpts { deviation: bool, transforms: bool }
+
+/// the mesh clauses of check_mesh with a frame-aware tolerance (all absolute quantities follow the scale tc0.s), more caps
+/// (just above / below the true distance), max_angle 0 / pi/2 / pi / 4, Some(identity) and a far Some(translation), index lists
+/// with 0 / 1 / 2 points and duplicates, and Mesh::measure_point_deviation at every distance
+fn check_mesh_w(r: &mut Report, name: &str, m: &Mesh, tc0: Tc, inside: &dyn Fn(&Point3) -> bool, queries: &[Point3], opts: &MeshOpts) {
+    use crate::common::DistMode;
+    use crate::metrology::Measurement;
+    let t = tris(m);
+    let nf = t.len();
+    let sc = tc0.s;
+    let normals: Vec<Vector3> = t.iter().map(tri_normal).collect();
+    let name = format!("{} ({} faces, is_solid={})", name, nf, m.is_solid());
+    let ident = Iso3::identity();
+    let tr = Iso3::from_parts(Translation3::new(1.0 * sc, -2.0 * sc, 3.0 * sc), UnitQuaternion::identity());
+    let rot = Iso3::from_parts(Translation3::new(-1.0 * sc, 0.5 * sc, 2.0 * sc), UnitQuaternion::from_axis_angle(&Vector3::z_axis(), PI / 2.0));
+    let far_t = Iso3::from_parts(Translation3::new(P20 * sc, -2.0 * P20 * sc, 0.5 * P20 * sc), UnitQuaternion::identity());
+    let tfs: Vec<(&str, Option<&Iso3>)> = if opts.transforms {
+        vec![("None", None), ("Some(identity)", Some(&ident)), ("Some(translation (1,-2,3) * scale)", Some(&tr)), ("Some(Rz90 then +(-1,0.5,2) * scale)", Some(&rot)), ("Some(translation (2^20,-2^21,2^19) * scale)", Some(&far_t))]
+    } else { vec![("None", None), ("Some(translation (2^20,-2^21,2^19) * scale)", Some(&far_t))] };
+    let angles = [0.0, 0.1, 0.5, 1.0, 1.5, PI / 2.0, 2.0, PI, 4.0];
+    let mut used: Vec<Point3> = vec![];
+    for q in queries {
+        if m.is_solid() && inside(q) { continue; }
+        used.push(*q);
+        r.case();
+        let tc = Tc { s: sc, m: tc0.m.max(q.coords.amax()) };
+        let tiny = 1e-6 * sc + 64.0 * f64::EPSILON * tc.m;
+        let d = || format!("{} query ({:?}, {:?}, {:?})", name, q.x, q.y, q.z);
+        let b = brute(&t, q);
+        let sp = m.surf_closest_to(q);
+        let on: Vec<usize> = (0..nf).filter(|&f| (sp.point - tri_closest(&t[f][0], &t[f][1], &t[f][2], &sp.point)).norm() <= tc.t(0.0)).collect();
+        r.check(!on.is_empty(), "mesh: the reported closest point lies on a face of the mesh", d);
+        let dp = (q - sp.point).norm();
+        r.check(dp <= b.dmin + tc.t(b.dmin), "mesh: no vertex, edge or face is nearer to the query than the reported point (brute force over all triangles)", d);
+        r.check(on.iter().any(|&f| (normals[f] - sp.normal.into_inner()).norm() <= 1e-9), "mesh: the reported normal is the normal of a face containing the reported point", d);
+        let pc = m.point_closest_to(q);
+        r.check((pc - sp.point).norm() <= tc.t(0.0), "mesh: point_closest_to and surf_closest_to report the same point", d);
+
+        // distance cap, in both relations to the true distance, also just above / below it (1e-6 relative, far above rounding)
+        let mut caps = vec![b.dmin + 0.5 * sc, 2.0 * b.dmin + sc, 1.0e9 * sc + 8.0 * b.dmin];
+        if b.dmin > tiny { caps.push(0.5 * b.dmin); caps.push(b.dmin * (1.0 + 1e-6) + 4.0 * tc.t(b.dmin)); caps.push(b.dmin * (1.0 - 1e-6) - 4.0 * tc.t(b.dmin)); }
+        for c in [0.25 * sc, 1.25 * sc, 5.0 * sc] { if (b.dmin - c).abs() > 1e-3 * sc { caps.push(c); } }
+        for cap in caps.iter() {
+            if *cap <= 0.0 { continue; }
+            let dc = || format!("{} cap {:?} (true distance {:?})", d(), cap, b.dmin);
+            let res = m.project_with_max_dist(q, *cap);
+            r.check(res.is_some() == (b.dmin <= *cap), "mesh: with a distance cap a result is returned exactly when the true distance is within the cap", dc);
+            if let Some((prj, id, loc)) = res {
+                r.check((id as usize) < nf, "mesh: capped projection reports a face of the mesh", dc);
+                r.check((q - prj.point).norm() <= b.dmin + tc.t(b.dmin), "mesh: capped projection reports a point at the minimum distance", dc);
+                if (id as usize) < nf {
+                    match loc.barycentric_coordinates() {
+                        Some(bc) => {
+                            let f = &t[id as usize];
+                            // convex combination evaluated relative to the first corner (exact differences far from the origin)
+                            let rp = f[0] + (f[1] - f[0]) * bc[1] + (f[2] - f[0]) * bc[2];
+                            r.check(bc.iter().all(|x| *x >= -EPS && *x <= 1.0 + EPS) && eq(bc[0] + bc[1] + bc[2], 1.0), "mesh: barycentric location is a convex combination", dc);
+                            r.check((rp - prj.point).norm() <= tc.t(0.0), "mesh: face id and barycentric location reproduce the reported point", dc);
+                        }
+                        None => r.check(false, "mesh: the reported location has barycentric coordinates", dc),
+                    }
+                }
+            }
+        }
+
+        // angle-filtered projection
+        for (tn, tf) in tfs.iter() {
+            let (arg, qq) = match tf { None => (*q, *q), Some(x) => { let a = x.inverse() * q; (a, *x * a) } };
+            let bb = brute(&t, &qq);
+            if bb.dmin != 0.0 && bb.dmin < tiny { continue; }
+            let near: Vec<usize> = (0..nf).filter(|&f| bb.d[f] <= bb.dmin + tc.t(bb.dmin)).collect();
+            for &ma in angles.iter() {
+                let cap = bb.dmin + 0.5 * sc;
+                let da = || format!("{} passed as ({:?}, {:?}, {:?}) with transform {} max_dist {:?} max_angle {:?} (true distance {:?})", d(), arg.x, arg.y, arg.z, tn, cap, ma, bb.dmin);
+                let verdicts: Vec<Tri> = near.iter().map(|&f| accepts(&normals[f], &(qq - bb.cp[f]), ma)).collect();
+                let res = m.project_with_tol(&arg, cap, ma, *tf);
+                if bb.dmin == 0.0 {
+                    if ma > 0.0 { r.check(res.is_some(), "mesh: project_with_tol accepts a query exactly on the surface (offset exactly zero) within the distance cap", da); }
+                } else if verdicts.iter().all(|v| *v == Tri::Yes) {
+                    r.check(res.is_some(), "mesh: project_with_tol accepts a point whose offset is within the stated angle of the face normal", da);
+                } else if verdicts.iter().all(|v| *v == Tri::No) {
+                    r.check(res.is_none(), "mesh: project_with_tol rejects a point whose offset is NOT within the stated angle of the face normal", da);
+                } else if let Some((_, id, _)) = res {
+                    let k = near.iter().position(|&f| f == id as usize);
+                    r.check(k.map(|k| verdicts[k] != Tri::No).unwrap_or(false), "mesh: project_with_tol accepted with a face whose normal is not within the stated angle of the offset", da);
+                } else {
+                    r.check(verdicts.iter().any(|v| *v != Tri::Yes), "mesh: project_with_tol rejected although every nearest face accepts", da);
+                }
+                if let Some((prj, id, _)) = res {
+                    r.check((id as usize) < nf && (qq - prj.point).norm() <= bb.dmin + tc.t(bb.dmin), "mesh: project_with_tol reports a point at the minimum distance", da);
+                }
+                if bb.dmin > tiny {
+                    r.check(m.project_with_tol(&arg, 0.5 * bb.dmin, ma, *tf).is_none(), "mesh: project_with_tol returns nothing when the true distance exceeds the distance cap", da);
+                }
+            }
+        }
+
+        // deviation of the query from the mesh, both modes, at every distance and on both sides
+        if opts.deviation {
+            let near: Vec<usize> = (0..nf).filter(|&f| b.d[f] <= b.dmin + tc.t(b.dmin)).collect();
+            let dev = m.measure_point_deviation(q, DistMode::ToPoint);
+            let val = dev.value();
+            let dd = || format!("{}; brute-force distance {:?}; measure_point_deviation(ToPoint) value {:?} a ({:?}, {:?}, {:?})", d(), b.dmin, val, dev.a.x, dev.a.y, dev.a.z);
+            r.check(dev.b == *q && ((q - dev.a).norm() - b.dmin).abs() <= tc.t(b.dmin), "measure_point_deviation: a is a closest point of the mesh (brute force), b is the query", dd);
+            if b.dmin >= 1.000001e-6 + tc.t(b.dmin) {
+                r.check((val.abs() - b.dmin).abs() <= tc.t(b.dmin), "measure_point_deviation (ToPoint): the magnitude of the deviation equals the distance from the query to the closest point (brute force)", dd);
+            } else {
+                r.check(val.abs() <= b.dmin + tc.t(b.dmin) && b.dmin - val.abs() <= 1.000001e-6 + tc.t(b.dmin), "measure_point_deviation (ToPoint), query closer than 1e-6: the magnitude differs from the distance to the closest point by less than the documented epsilon 1e-6 and never exceeds it", dd);
+            }
+            let sides: Vec<f64> = near.iter().map(|&f| normals[f].dot(&(q - b.cp[f]))).collect();
+            if b.dmin >= 1.000001e-6 + tiny && sides.iter().all(|s| *s > 1e-3 * b.dmin) { r.check(val > 0.0, "measure_point_deviation (ToPoint): positive on the outward-normal side of every nearest face", dd); }
+            if b.dmin >= 1.000001e-6 + tiny && sides.iter().all(|s| *s < -1e-3 * b.dmin) { r.check(val < 0.0, "measure_point_deviation (ToPoint): negative behind every nearest face", dd); }
+            let pl = m.measure_point_deviation(q, DistMode::ToPlane).value();
+            r.check(sides.iter().any(|s| (s - pl).abs() <= tc.t(b.dmin)), "measure_point_deviation (ToPlane): the deviation is the component of the offset along the normal of a nearest face", || format!("{}; ToPlane value {:?}, normal components for the nearest faces {:?}", d(), pl, sides));
+        }
+    }
+    // indices_in_tol == the indices accepted by project_with_tol: the whole list, the empty list, 1 and 2 points, duplicates
+    let k = used.len();
+    let mut lists: Vec<(&str, Vec<Point3>)> = vec![("all queries", used.clone()), ("no point", vec![])];
+    if k >= 3 {
+        lists.push(("one point", vec![used[k / 2]]));
+        lists.push(("two points", vec![used[0], used[k - 1]]));
+        lists.push(("the same point twice", vec![used[k / 3], used[k / 3]]));
+        let mut dup = vec![];
+        for (i, p) in used.iter().enumerate() { dup.push(*p); if i % 3 == 0 { dup.push(*p); } if i % 7 == 0 { dup.push(used[0]); } }
+        lists.push(("all queries, every third one twice in a row and the first one again after every seventh", dup));
+    }
+    for (ln, list) in lists.iter() {
+        for (tn, tf) in tfs.iter() {
+            for &ma in [0.0, 0.5, 1.5, PI].iter() { for cap in [0.3 * sc, 1.25 * sc] {
+                // indices whose verdict hangs on rounding (distance within tolerance of the cap) are not compared here: the list is
+                // compared with the single-point function, which takes the same decision
+                let got = m.indices_in_tol(list, cap, ma, *tf);
+                let want: Vec<usize> = (0..list.len()).filter(|&i| m.project_with_tol(&list[i], cap, ma, *tf).is_some()).collect();
+                r.check(got == want, "mesh: indices_in_tol lists exactly the indices that project_with_tol accepts, in order", || format!("{} list: {} ({} points), max_dist {:?} max_angle {:?} transform {}; got {} indices, expected {}", name, ln, list.len(), cap, ma, tn, got.len(), want.len()));
+            } }
+        }
+    }
+}
+
+fn meshes_w5(r: &mut Report) {
+    struct MF { name: String, v: Vec<V3>, f: Vec<[u32; 3]>, fine: f64, nv: usize, gridn: f64, frames: Vec<Frame>, solid: Vec<bool>, inside: Option<fn(&V3) -> bool>, opts: MeshOpts }
+    let fa = frames_all();
+    // meshes are not taken to 2^-30: parry's Triangle::normal() treats faces with |cross product| < 2.2e-16 as degenerate
+    // (known finding: Mesh::surf_closest_to panics there)
+    let mesh_frames_all = || vec![fa[0], fa[1], fa[2], fa[3], fa[4], fa[6], fa[7]];
+    let mesh_frames_few = || vec![fa[0], fa[2], fa[4]];
+    let mut fams: Vec<MF> = vec![];
+    for (nx, ny) in [(4usize, 4usize), (7, 5), (23, 23), (46, 46)] {
+        let (v, f) = gen_heightfield(nx, ny, 1.0, 1.0, 0.25, false, false);
+        let small = nx * ny <= 64;
+        fams.push(MF { name: format!("height field {}x{} unit cells, z = ((3i+5j)%4)/4, alternating diagonals", nx, ny), v, f, fine: 0.125, nv: if small { 12 } else { 8 }, gridn: if small { 8.0 } else { 6.0 }, frames: if small { mesh_frames_all() } else { mesh_frames_few() }, solid: vec![false], inside: None, opts: MeshOpts { deviation: true, transforms: small } });
+    }
+    let (v, f) = gen_heightfield(7, 5, 1.0, 1.0, 0.25, true, true);
+    fams.push(MF { name: "height field 7x5, every third face with the opposite winding, vertex ids reversed".into(), v, f, fine: 0.125, nv: 12, gridn: 8.0, frames: mesh_frames_few(), solid: vec![false], inside: None, opts: MeshOpts { deviation: true, transforms: true } });
+    let (v, f) = gen_heightfield(64, 1, 0.25, 0.25, 0.0625, false, false);
+    fams.push(MF { name: "long thin strip 64x1 cells of 0.25 x 0.25, z = ((3i+5j)%4)/16".into(), v, f, fine: 0.0625, nv: 12, gridn: 16.0, frames: mesh_frames_few(), solid: vec![false], inside: None, opts: MeshOpts { deviation: true, transforms: true } });
+    // two nested, nearly coincident sheets 2^-10 apart
+    let (mut v, mut f) = gen_heightfield(6, 6, 1.0, 1.0, 0.25, false, false);
+    let nv0 = v.len() as u32;
+    let (v2, f2) = gen_heightfield(6, 6, 1.0, 1.0, 0.25, false, true);
+    v.extend(v2.iter().map(|p| (p.0, p.1, p.2 + 1.0 / 1024.0)));
+    f.extend(f2.iter().map(|t| [t[0] + nv0, t[1] + nv0, t[2] + nv0]));
+    fams.push(MF { name: "two height fields 6x6 lying 2^-10 apart (second one numbered in reverse)".into(), v, f, fine: 1.0 / 4096.0, nv: 16, gridn: 8.0, frames: mesh_frames_few(), solid: vec![false], inside: None, opts: MeshOpts { deviation: true, transforms: false } });
+    // every face listed twice, vertices of the second copy duplicated
+    let (mut v, mut f) = gen_heightfield(3, 2, 1.0, 1.0, 0.25, false, false);
+    let nv0 = v.len() as u32;
+    let fcopy = f.clone();
+    v.extend(v.clone());
+    f.extend(fcopy.iter().map(|t| [t[0] + nv0, t[1] + nv0, t[2] + nv0]));
+    f.extend(fcopy.iter().cloned());
+    fams.push(MF { name: "height field 3x2 with every face listed three times (once through duplicated vertices)".into(), v, f, fine: 0.125, nv: 12, gridn: 8.0, frames: vec![fa[0]], solid: vec![false], inside: None, opts: MeshOpts { deviation: true, transforms: false } });
+    fn in_box234(q: &V3) -> bool { q.0 > 0.0 && q.0 < 2.0 && q.1 > 0.0 && q.1 < 3.0 && q.2 > 0.0 && q.2 < 4.0 }
+    fn in_octa(q: &V3) -> bool { q.0.abs() + q.1.abs() + q.2.abs() < 2.0 }
+    for k in [4usize, 16] {
+        let (v, f) = gen_tess_box(2.0, 3.0, 4.0, k);
+        fams.push(MF { name: format!("box 2x3x4, every side a {}x{} grid with its own vertices", k, k), v, f, fine: 0.125, nv: 12, gridn: 8.0, frames: if k == 4 { mesh_frames_all() } else { mesh_frames_few() }, solid: vec![false, true], inside: Some(in_box234), opts: MeshOpts { deviation: true, transforms: k == 4 } });
+    }
+    let (v, f) = gen_octahedron(2.0);
+    fams.push(MF { name: "octahedron |x|+|y|+|z| = 2 (a solid that does not fill its bounding box)".into(), v, f, fine: 0.125, nv: 8, gridn: 12.0, frames: mesh_frames_all(), solid: vec![false, true], inside: Some(in_octa), opts: MeshOpts { deviation: true, transforms: true } });
+
+    for fam in fams.iter() {
+        let qs = mesh_queries_w(&fam.v, &fam.f, fam.fine, fam.nv, fam.gridn);
+        for fr in fam.frames.iter() {
+            let ap = |p: &V3| Point3::new(p.0 * fr.s + fr.o[0], p.1 * fr.s + fr.o[1], p.2 * fr.s + fr.o[2]);
+            let verts: Vec<Point3> = fam.v.iter().map(ap).collect();
+            let mag = verts.iter().fold(0.0f64, |a, p| a.max(p.coords.amax()));
+            let tc = Tc { s: fr.s, m: mag };
+            let q3: Vec<Point3> = qs.iter().map(ap).collect();
+            let inv = |q: &Point3| ((q.x - fr.o[0]) / fr.s, (q.y - fr.o[1]) / fr.s, (q.z - fr.o[2]) / fr.s);
+            for &solid in fam.solid.iter() {
+                let m = Mesh::new(verts.clone(), fam.f.clone(), solid);
+                let nm = format!("{}, {}", fam.name, fr.tag);
+                let ins = fam.inside;
+                check_mesh_w(r, &nm, &m, tc, &|q| match ins { Some(g) => g(&inv(q)), None => false }, &q3, &fam.opts);
+            }
+        }
+    }
+}
+
 pub fn run() -> Option<Report> {
     let mut r = Report::new("curves: all 2..=3-vertex sequences over the 3x3 grid (2D, x force_closed) / over {0,1}^3 (3D), 7 + 5 fixed polylines with 4..=33 vertices (long thin, nested, nearly coincident, self-crossing, doubled back); meshes: box, box + disjoint box, box + nested box, two-triangle strip, two nearly coincident triangles, long thin quad, solid and non-solid; queries on half/quarter-integer grids reaching 1 beyond the bounding box plus far-outside points incl. EXTREMELY far ones (1e5 .. 1e8 units: 1e4 .. 1e8 x the size of the entity) (inside points for non-solid meshes only); caps 0.5*d, d+0.5, 2d+1, 0.25, 1.25, 5 (never within 1e-3 of the true distance d); max_angle in {0.1, 0.5, 1, 1.5, 2} rad with a 1e-6 rad undecided margin; transforms None / translation / quarter turn + translation; oracle = brute force over all segments / triangles, tolerance 1e-9 relative; NEAR-SURFACE: box 2x3x4 (solid and not), two-triangle strip, long thin quad, open roof x base points (every corner, two points inside every triangle edge, one inside every face) x 30 offset directions (6 axes, 24 of type (+-1,+-2,+-3)) x offsets 1e-7, 1e-6, 1e-5, 1e-4, 1e-3, 1e-2: closest point / distance / normal and Mesh::measure_point_deviation (ToPoint magnitude and sign, ToPlane) against the brute-force distance (below the documented 1e-6 epsilon the ToPoint magnitude is judged to 1e-6); UV WRAPPERS: Mesh::uv_with_tol on 3 UV-mapped meshes (open roof with the unfolded UV, two-triangle strip with uv = (x, y), box 2x3x4 with one chart per face) x integer / half-integer query grids reaching 1 beyond the bounding box plus far points (queries closer than 1e-6 skipped) x transform None / Some(translation) / Some(quarter turn + translation) / Some(0.7 rad about (1,2,3) + translation) / Some(1e-3 rad about x + translation) x caps {d+0.5, d/2, 0.25, 1.25} x max_angle {0.1, 0.5, 1, 1.5, 2}: nothing is returned beyond the cap, acceptance follows the angle of the offset of (transform * point) to the normal of the nearest face(s), uv / depth are those of a nearest non-rejecting face (brute force)");
     curves(&mut r);
     meshes(&mut r);
     near_surface(&mut r);
     uv_wrappers(&mut r);
+    curves_w5(&mut r);
+    meshes_w5(&mut r);
     Some(r)
 }
